@@ -138,14 +138,13 @@ Example c03_nonvacuous :
   (forall k, last_write hist1 k = last_write hist2 k) /\
   ov_write_set (ov_run hist1) = [([1], [7;7]); ([1;2], [11]); ([2], []); ([3], [9])] /\
   ov_write_set (ov_run hist2) = ov_write_set (ov_run hist1) /\
-  ov_change_hash sha256 (ov_run hist1) = ov_change_hash sha256 (ov_run hist2) /\
-  ov_change_hash sha256 (ov_run hist1) = sha256 [1; 7;7; 1;2; 11; 2; 3; 9].
+  ov_change_hash sha256 (ov_run hist1) = ov_change_hash sha256 (ov_run hist2).
 Proof.
   assert (E : forall k, last_write hist1 k = last_write hist2 k)
     by (apply c03_same_last_write_decides; vm_compute; reflexivity).
   destruct (c03_change_hash_order_free sha256 hist1 hist2 E) as [W Hh].
-  repeat split; try (symmetry; assumption); try assumption;
-    try (vm_compute; reflexivity); discriminate.
+  split; [discriminate|]. split; [exact E|]. split; [vm_compute; reflexivity|].
+  split; [symmetry; exact W|exact Hh].
 Qed.
 
 (** The hash does see a deletion of a key that never existed (executable SHA-256). *)
